@@ -493,14 +493,14 @@ Qed.
 (** on a reduced node with an uncomplemented then-edge whose triple is new, all rule
     sets insert exactly this node *)
 Lemma mk_node_fresh k store level t e :
-  k = KBDD \/ k = KBCDD -> t <> e -> ce_tag t = false ->
+  k = KBCDD -> t <> e -> ce_tag t = false ->
   (forall x, In x store -> x <> mkN level t e) ->
   mk_node k store level t e = (store ++ [mkN level t e], mkE (RNode (N.of_nat (length store))) false).
 Proof.
   intros Hk Hne Htag Hnew.
   assert (Heq : cedge_eqb t e = false).
   { destruct (cedge_eqb t e) eqn:E; [|reflexivity]. apply cedge_eqb_eq in E. contradiction. }
-  destruct Hk as [-> | ->]; unfold mk_node; rewrite Heq, Htag, find_or_add_fresh by assumption; reflexivity.
+  subst k. unfold mk_node. rewrite Heq, Htag, find_or_add_fresh by assumption. reflexivity.
 Qed.
 
 (** *** one node *)
@@ -509,11 +509,11 @@ Lemma code_match {A} (vc : code) (a b : A) : vc <> CTerminal ->
   match vc with CTerminal => a | CAbsolute => b | CRelative => b | CRelative1 => b end = b.
 Proof. destruct vc; intros H; [contradiction|reflexivity..]. Qed.
 
-Lemma complement_eref (k : kind) (id : N) (c : bool) : k = KBDD \/ k = KBCDD ->
-  (if c then complement k (eref id false) else Ok (eref id false)) = Ok (eref id c).
+Lemma complement_eref (k : kind) (store : list cnode) (id : N) (c : bool) : k = KBCDD ->
+  (if c then complement k store (eref id false) else Ok (store, eref id false)) = Ok (store, eref id c).
 Proof.
-  intros [-> | ->]; destruct c; try reflexivity; unfold complement, neg, eref;
-    destruct (id =? 1); reflexivity.
+  intros ->. destruct c; try reflexivity. unfold complement, neg, eref.
+  destruct (id =? 1); reflexivity.
 Qed.
 
 Lemma eref_tag (id : N) (c : bool) : ce_tag (eref id c) = c.
@@ -533,7 +533,7 @@ Lemma state_store_length (slm : list N) (l : list inode) j : (j <= length l)%nat
 Proof. intros H. unfold state_of. cbn [st_store]. rewrite map_length, firstn_length. lia. Qed.
 
 Theorem import_bin_node_step : forall k slm nlevels l j nd rest,
-  k = KBDD \/ k = KBCDD ->
+  k = KBCDD ->
   wf_dag (N.of_nat (length slm)) l -> incr slm -> Forall (fun x => x < level_max) slm ->
   N.of_nat (length slm) < usize_limit ->
   nth_error l j = Some nd ->
@@ -610,7 +610,7 @@ Proof.
 Qed.
 
 Lemma import_bin_loop_export : forall k slm nlevels l rest,
-  k = KBDD \/ k = KBCDD ->
+  k = KBCDD ->
   wf_dag (N.of_nat (length slm)) l -> incr slm -> Forall (fun x => x < level_max) slm ->
   N.of_nat (length slm) < usize_limit ->
   N.of_nat (length l) + 1 < usize_limit ->
@@ -636,7 +636,7 @@ Qed.
     entry [i] of the unique table, which holds exactly the exported nodes (levels via
     [suppvar_level_map]), and nothing of the input after the section is consumed. *)
 Theorem import_export_bin : forall k slm nlevels l rest,
-  k = KBDD \/ k = KBCDD ->
+  k = KBCDD ->
   wf_dag (N.of_nat (length slm)) l -> incr slm -> Forall (fun x => x < level_max) slm ->
   N.of_nat (length slm) < usize_limit ->
   N.of_nat (length l) + 1 < usize_limit ->
@@ -649,7 +649,7 @@ Proof.
   destruct (N.eqb_spec (N.of_nat (S (length l))) 0); [lia|].
   change (export_from (dag_of l) 1 (dag_of l))
     with (export_node (dag_of l) 1 XTerm ++ export_from (dag_of l) (1 + 1) (map xi l)).
-  assert (Hbt : bin_terminal k = Some (mkE (RTerm (TNum 1)) false)) by (destruct Hk as [-> | ->]; reflexivity).
+  assert (Hbt : bin_terminal k = Some (mkE (RTerm (TNum 1)) false)) by (subst k; reflexivity).
   rewrite Hbt, Nat2N.id.
   cbn [import_bin_loop export_node].
   rewrite <- app_assoc.
@@ -676,17 +676,19 @@ Definition root_ok (l : list inode) (r : Z) : Prop :=
   (r <> 0)%Z /\ Z.abs_N r <= N.of_nat (length l) + 1.
 
 Lemma import_roots_state : forall k slm l rootids,
-  k = KBDD \/ k = KBCDD -> Forall (root_ok l) rootids ->
+  k = KBCDD -> Forall (root_ok l) rootids ->
   import_roots k (state_of slm l (length l)) rootids =
-  Ok (map (fun r => eref (Z.abs_N r) (r <? 0)%Z) rootids).
+  Ok (state_of slm l (length l), map (fun r => eref (Z.abs_N r) (r <? 0)%Z) rootids).
 Proof.
   intros k slm l rootids Hk. induction 1 as [|r rs [Hr0 Hr] _ IH]; [reflexivity|].
   cbn [import_roots map].
   destruct (Z.eqb_spec r 0); [contradiction|].
   assert (H1 : 1 <= Z.abs_N r) by lia.
-  unfold state_of at 1. cbn [st_nodes].
+  change (st_nodes (state_of slm l (length l))) with (nodes_upto (length l)).
   rewrite nth_error_nodes_upto by lia. cbn [bind].
   rewrite complement_eref by assumption. cbn [bind].
+  change (mkS (st_store (state_of slm l (length l))) (nodes_upto (length l)))
+    with (state_of slm l (length l)).
   rewrite IH. reflexivity.
 Qed.
 
@@ -694,7 +696,7 @@ Qed.
 Definition trailer : list byte := [46; 101; 110; 100; 10].
 
 Theorem import_file_export_bin : forall k vin slm nlevels l rootids,
-  k = KBDD \/ k = KBCDD ->
+  k = KBCDD ->
   wf_dag (N.of_nat (length slm)) l -> incr slm -> Forall (fun x => x < level_max) slm ->
   N.of_nat (length slm) < usize_limit ->
   N.of_nat (length l) + 1 < usize_limit ->
@@ -706,7 +708,7 @@ Proof.
   intros. unfold import_file.
   rewrite import_export_bin by assumption. cbn [bind].
   change (reads_end trailer) with true. cbn [negb].
-  rewrite import_roots_state by assumption. reflexivity.
+  apply import_roots_state; assumption.
 Qed.
 
 (** *** the hypotheses are satisfiable: x0 ∧ x1, x0 ⊕ x1 and ¬x1 over three support levels *)
